@@ -668,7 +668,7 @@ pub fn run_c05(ctx: &mut Ctx) {
     }
     if ctx.first_shard() {
         // exhaustive DFS over all schedules of small configurations
-        let cfgs: &[(usize, usize, usize)] = if ctx.thorough { &[(1, 2, 5000), (2, 1, 20000), (2, 2, 60000), (3, 1, 60000)] } else { &[(1, 2, 300), (2, 1, 600)] };
+        let cfgs: &[(usize, usize, usize)] = if ctx.thorough { &[(1, 2, 5000), (2, 1, 20000), (2, 2, 60000), (3, 1, 60000), (1, 4, 20000), (2, 3, 40000), (3, 2, 40000)] } else { &[(1, 2, 300), (2, 1, 600)] };
         for &(w, n, cap) in cfgs {
             ctx.guard(format!("pipewalk {w} {n} 0 1 0"));
             let (runs, complete) = dfs(ctx, w, n, false, cap);
@@ -720,7 +720,7 @@ pub fn run_c09(ctx: &mut Ctx) {
         }
     }
     if ctx.first_shard() {
-        let cfgs: &[(usize, usize, usize)] = if ctx.thorough { &[(1, 2, 20000), (2, 1, 60000), (2, 2, 60000)] } else { &[(1, 1, 300), (2, 1, 600)] };
+        let cfgs: &[(usize, usize, usize)] = if ctx.thorough { &[(1, 2, 20000), (2, 1, 60000), (2, 2, 60000), (1, 3, 20000), (3, 1, 40000)] } else { &[(1, 1, 300), (2, 1, 600)] };
         for &(w, n, cap) in cfgs {
             ctx.guard(format!("pipewalk {w} {n} 0 1 1"));
             let (runs, complete) = dfs(ctx, w, n, true, cap);
